@@ -338,6 +338,7 @@ func (c *cmafIngester) start(ctx context.Context) {
 			nrInitErrors++
 		} else {
 			c.log.Info("Sent init segment", "path", rd.initPath, "contentType", contentType, "size", len(initBin))
+			verifGate("ingest:sess_report")
 			c.addReport(fmt.Sprintf("Sent init segment %s", rd.initPath))
 		}
 	}
